@@ -207,8 +207,13 @@ def compute_webs(fn: ast.FunctionDef) -> dict[int, str]:
 
 
 def unbound_reads(fn: ast.FunctionDef) -> list[ast.Name]:
-    """Reads of a local name of `fn` that no definition reaches on any path (UnboundLocalError whenever executed).  Names shared
-    with nested scopes, globals / nonlocals and exception-handler names are not judged."""
+    """Reads of a local name of `fn` that can be executed before any assignment to it, restricted to the three shapes in which no
+    correlation between conditions can make the path infeasible:
+      (a) no definition reaches the read on any path;
+      (b) every definition that reaches it comes from later in the function (a loop back-edge): the first iteration reads nothing;
+      (c) every definition that reaches it sits in one `if` statement that precedes the read in the same block, and the other branch
+          of that `if` falls through without defining it.
+    Names shared with nested scopes, globals / nonlocals, comprehension and exception-handler names are not judged."""
     skip: set[str] = set()
     for n in ast.walk(fn):
         if isinstance(n, (ast.Global, ast.Nonlocal)):
@@ -227,12 +232,9 @@ def unbound_reads(fn: ast.FunctionDef) -> list[ast.Name]:
             skip |= {x.id for g in n.generators for x in ast.walk(g.target) if isinstance(x, ast.Name)}
         if isinstance(n, ast.NamedExpr) and isinstance(n.target, ast.Name):
             skip.add(n.target.id)
-        if isinstance(n, (ast.Try,)) or type(n).__name__ in ("Match", "TryStar"):
-            pass
     local = {x.id for x in ast.walk(fn) if isinstance(x, ast.Name) and isinstance(x.ctx, (ast.Store, ast.Del))}
     a = fn.args
     params = {arg.arg for arg in a.posonlyargs + a.args + a.kwonlyargs + ([a.vararg] if a.vararg else []) + ([a.kwarg] if a.kwarg else [])}
-    local |= params
     r = _Reach(skip)
     entry = {}
     for nm in params:
@@ -242,15 +244,61 @@ def unbound_reads(fn: ast.FunctionDef) -> list[ast.Name]:
         r.next_def += 1
         r.name_of_def[d] = nm
         entry[nm] = frozenset([d])
+    UNB = -1                                   # pseudo-definition "never assigned so far"
+    for nm in local - params - skip:
+        entry[nm] = frozenset([UNB])
     try:
         r.run_function(fn, entry)
     except Exception:
         return []
-    # a try body may bind a name the handler / the code after it reads: judged only outside try statements
+    store_node = {d: None for d in r.name_of_def}
+    for n in ast.walk(fn):
+        if isinstance(n, ast.Name) and id(n) in r.def_of_store:
+            store_node[r.def_of_store[id(n)]] = n
+    parent = {}
+    for n in ast.walk(fn):
+        for c in ast.iter_child_nodes(n):
+            parent[id(c)] = n
+
+    def enclosing_stmt_in_block(n):
+        """(statement, block list) of the innermost statement list that contains n."""
+        cur = n
+        while id(cur) in parent:
+            par = parent[id(cur)]
+            for fld in ("body", "orelse", "finalbody"):
+                b = getattr(par, fld, None)
+                if isinstance(b, list) and cur in b:
+                    return cur, b
+            cur = par
+        return None, None
     in_try = {id(x) for t in ast.walk(fn) if isinstance(t, ast.Try) for x in ast.walk(t)}
     out = []
     for n in ast.walk(fn):
-        if isinstance(n, ast.Name) and isinstance(n.ctx, ast.Load) and n.id in local and n.id not in skip and id(n) in r.defs_of_load \
-                and not r.defs_of_load[id(n)] and id(n) not in in_try:
+        if not (isinstance(n, ast.Name) and isinstance(n.ctx, ast.Load) and n.id in local and n.id not in skip and n.id not in params
+                and id(n) in r.defs_of_load and id(n) not in in_try):
+            continue
+        ds = r.defs_of_load[id(n)]
+        if UNB not in ds:
+            continue
+        real = [store_node.get(d) for d in ds if d != UNB]
+        if not real:                                            # (a)
             out.append(n)
+            continue
+        if any(x is None for x in real):
+            continue
+        pos = (n.lineno, n.col_offset)
+        if all((x.lineno, x.col_offset) > pos for x in real):     # (b) only back-edges bring a value
+            out.append(n)
+            continue
+        st, blk = enclosing_stmt_in_block(n)                     # (c)
+        if st is None:
+            continue
+        i = blk.index(st)
+        for prev in blk[:i]:
+            if isinstance(prev, ast.If) and all(any(x is y for y in ast.walk(prev)) for x in real):
+                in_body = [x for x in real if any(x is y for b_ in prev.body for y in ast.walk(b_))]
+                in_else = [x for x in real if any(x is y for b_ in prev.orelse for y in ast.walk(b_))]
+                if not in_body or not in_else:
+                    out.append(n)
+                break
     return out
